@@ -9,12 +9,16 @@
      doc   <langid> <page> <tok> <hex> decode_opaque_content with that language / current tag
      doa   <langid> <hex>              decode_opaque_attr_value
      pattr <langid> <page> <hex>       parse_attribute on the bytes (attrStart *attrValue END) in that attribute page
-     w2x   <hex>                       wbxml_conv_wbxml2xml_run  -> "ok <hex of xml>" | "err <code>"
+     w2x   <langid> <hex>              wbxml_conv_wbxml2xml_run (langid 0: not forced)  -> "ok <hex of xml>" | "err <code>"
      x2w   <hex>                       wbxml_conv_xml2wbxml_run  -> "ok <hex of wbxml>" | "err <code>"
+     name  <langid> <page> <tok> 00    xmlName of that tag in the language's own table ("-" if none)
+     aname <langid> <page> <tok> 00    xmlName of that attribute start
+     w2w   <langid> <hex>              wbxml_tree_from_wbxml then wbxml_tree_to_wbxml (decode and re-encode through the tree)
 */
 #include "vh.h"
 #include "wbxml_parser.c"
 #include "wbxml_conv.h"
+#include "wbxml_tree.h"
 
 static const char *errname(WBXMLError e) {
     static char tmp[32];
@@ -98,12 +102,13 @@ int main(void) {
             }
             wbxml_parser_destroy(p);
         }
-        else if (!strcmp(tok[0], "w2x")) {
+        else if (!strcmp(tok[0], "w2x") && nt == 3) {
             WBXMLConvWBXML2XML *conv = NULL;
             WB_UTINY *out = NULL; WB_ULONG outlen = 0;
             WBXMLError e = wbxml_conv_wbxml2xml_create(&conv);
             if (e == WBXML_OK) {
                 wbxml_conv_wbxml2xml_set_gen_type(conv, WBXML_GEN_XML_COMPACT);
+                if (atoi(tok[1]) != 0) wbxml_conv_wbxml2xml_set_language(conv, (WBXMLLanguage) atoi(tok[1]));
                 e = wbxml_conv_wbxml2xml_run(conv, d, (WB_ULONG) n, &out, &outlen);
                 if (e == WBXML_OK) { printf("ok "); vh_puthex(stdout, out, outlen); printf("\n"); }
                 else printf("err %d\n", (int) e);
@@ -116,13 +121,41 @@ int main(void) {
             WB_UTINY *out = NULL; WB_ULONG outlen = 0;
             WBXMLError e = wbxml_conv_xml2wbxml_create(&conv);
             if (e == WBXML_OK) {
-                wbxml_conv_xml2wbxml_disable_string_table(conv);
                 e = wbxml_conv_xml2wbxml_run(conv, d, (WB_ULONG) n, &out, &outlen);
                 if (e == WBXML_OK) { printf("ok "); vh_puthex(stdout, out, outlen); printf("\n"); }
                 else printf("err %d\n", (int) e);
                 wbxml_free(out);
                 wbxml_conv_xml2wbxml_destroy(conv);
             } else printf("err %d\n", (int) e);
+        }
+        else if ((!strcmp(tok[0], "name") || !strcmp(tok[0], "aname")) && nt == 5) {
+            const WBXMLLangEntry *lt = wbxml_tables_get_table((WBXMLLanguage) atoi(tok[1]));
+            int pg = atoi(tok[2]), tk = atoi(tok[3]), i, found = 0;
+            if (lt == NULL) printf("nolang\n");
+            else if (tok[0][0] == 'n') {
+                for (i = 0; lt->tagTable && lt->tagTable[i].xmlName; i++)
+                    if (lt->tagTable[i].wbxmlCodePage == pg && lt->tagTable[i].wbxmlToken == tk) {
+                        printf("%s%s\n", lt->tagTable[i].xmlName, (lt->tagTable[i].options & WBXML_TAG_OPTION_BINARY) ? " BINARY" : ""); found = 1; break; }
+                if (!found) printf("-\n");
+            } else {
+                for (i = 0; lt->attrTable && lt->attrTable[i].xmlName; i++)
+                    if (lt->attrTable[i].wbxmlCodePage == pg && lt->attrTable[i].wbxmlToken == tk) {
+                        printf("%s\n", lt->attrTable[i].xmlName); found = 1; break; }
+                if (!found) printf("-\n");
+            }
+        }
+        else if (!strcmp(tok[0], "w2w") && nt == 3) {
+            WBXMLTree *tree = NULL;
+            WB_UTINY *out = NULL; WB_ULONG outlen = 0;
+            WBXMLGenWBXMLParams params;
+            WBXMLError e = wbxml_tree_from_wbxml(d, (WB_ULONG) n, (WBXMLLanguage) atoi(tok[1]), WBXML_CHARSET_UNKNOWN, &tree);
+            params.wbxml_version = WBXML_VERSION_13; params.keep_ignorable_ws = TRUE;
+            params.use_strtbl = FALSE; params.produce_anonymous = FALSE;
+            if (e == WBXML_OK) e = wbxml_tree_to_wbxml(tree, &out, &outlen, &params);
+            if (e == WBXML_OK) { printf("ok "); vh_puthex(stdout, out, outlen); printf("\n"); }
+            else printf("err %d\n", (int) e);
+            wbxml_free(out);
+            wbxml_tree_destroy(tree);
         }
         else printf("bad\n");
         free(d);
